@@ -28,7 +28,7 @@ use vh::gsupport::{ev, take_events};
 
 def key(s):
     return "/".join([s["recv"], ",".join(s["params"]) or "-", s["form"], f"{s['pos']}of{s['n']}" + ("+static" if s.get("static_first") else ""),
-                     s["asy"], s["mode"], "provided" if s.get("dflt") else "required"] + (["provided-sibling"] if s.get("sib") else []) + (["after-another-failure"] if s.get("prior") else []))
+                     s["asy"], s["mode"], "provided" if s.get("dflt") else "required"] + (["provided-sibling"] if s.get("sib") else []) + (["after-another-failure"] if s.get("prior") else []) + ([f"api-{s['api']}"] if s.get("api") else []))
 
 
 def self_ty(recv):
@@ -101,7 +101,14 @@ def render(idx, s):
         # position of the unmock_with list
         methods.insert(0, "        fn kind() -> u32 where Self: Sized { 4 }")
         unmocks.insert(0, "_")
-    trait_src = f"""    #[unimock(api=Mk, unmock_with=[{', '.join(unmocks)}])]
+    api_attr = "api=Mk, "
+    if s.get("api") == "hidden":
+        api_attr = ""
+    elif s.get("api") == "flat":
+        # one name per mocked method, in declaration order (the skipped static fn has none)
+        names = ["FnF" if m.lstrip().startswith(("fn f(", "async fn f(")) else f"FnOther{i}" for i, m in enumerate(methods) if "fn kind()" not in m]
+        api_attr = "api=[" + ", ".join(names) + "], "
+    trait_src = f"""    #[unimock({api_attr}unmock_with=[{', '.join(unmocks)}])]
     pub trait Tr{sized} {{
 {chr(10).join(methods)}
     }}
@@ -257,6 +264,9 @@ def shapes(tier):
     # the error of an unmock without registered function, raised after another (caught) mock error
     for recv in RECVS:
         out.append(dict(recv=recv, params=["u8"], form="none", n=2, pos=1, asy="sync", mode="strict", prior=True))
+    # traits without a module api (flattened names, or hidden): the method is named all the same
+    for recv, form, api in itertools.product(RECVS, ["none", "path"], ["flat", "hidden"]):
+        out.append(dict(recv=recv, params=["u8"], form=form, n=2, pos=1, asy="sync", mode="partial", api=api))
     return out
 
 
